@@ -5,6 +5,7 @@ import z3
 
 from .base import *   # noqa
 from . import states, logdet
+from .mainloop import MainLoop
 
 
 def runs_of(labels):
@@ -21,9 +22,10 @@ class C16(Check):
     pid = 'C16'
     validate = True
     anchors = [('src/fast_ticc/cluster_metrics.py', 'bayesian_information_criterion')]
-    obligations = ['bic_matches_definition', 'bic_logdet_argument_in_double_range']
+    obligations = ['bic_matches_definition', 'bic_logdet_argument_in_double_range', 'reported_bic_uses_fitted_model']
     obligation_text = {
         'bic_matches_definition': 'result == Pcnt*ln(T) - 2*sum_k(LOG(det Theta_k) - tr(Theta_k S_k)), Pcnt = sum over maximal label runs of #{|Theta_run[i,j]| > 2e-5}',
+        'reported_bic_uses_fitted_model': 'through the real main loop (run stopped by the iteration limit, final labels differing from the fitted ones): result.bayesian_information_criterion is the definition evaluated with the MRFs and the empirical covariances of the LAST FIT and the labels of the last relabel',
         'bic_logdet_argument_in_double_range': 'whenever the code obtains ln det through det(), the exact determinant of Theta = t*I_n (n up to 200, |ln det| <= 3000) must be a representable double (else the reported value is +-inf)',
     }
     stubs = ['np.linalg.det -> exact determinant (cofactor expansion n<=3; diagonal product) + range obligation',
@@ -47,6 +49,8 @@ class C16(Check):
                                witness_every=3, nonlinear=True, split=2))
         for n in ([1, 40, 100] if tier == 'quick' else [1, 40, 100, 200]):
             cfgs.append(Config('finite_n%d' % n, self.finite, {'n': n}))
+        for lim in (1, 2):
+            cfgs.append(Config('end_to_end_lim%d' % lim, self.end_to_end, {'lim': lim}, nonlinear=True))
         return cfgs
 
     def bic(self, c, T, K, n):
@@ -76,6 +80,38 @@ class C16(Check):
         pcnt = z3.Sum([cnt[k] for k in runs_of(labs)] + [z3.IntVal(0)])
         want = z3.ToReal(pcnt) * core._const_real(math.log(T)) - 2 * rsum(ll)
         c.prove('bic_matches_definition', z3.And(R(res) == want, states.intact(st, fz)))
+
+    def end_to_end(self, c, lim):
+        Rp = self.R
+        K, P, n = 2, 4, 1
+        data = stubs.sym_array(c, 'x', (P, n), writeable=False)
+        pats = [[0, 0, 1, 1], [0, 1, 0, 1], [1, 1, 0, 0]]
+        stubs.install_linalg(det=stubs.det_exact, slogdet=logdet.slogdet_stub)
+        ml = MainLoop(Rp, c, K, n, modes={'initial': 'summary', 'bic': 'real'}, spd=True,
+                      label_hook=lambda r, T: list(pats[(r + 1) % 3]))
+        ml.s_initial = lambda k, d: list(pats[0])
+        with ml:
+            ok, res = guarded(c, 'reported_bic_uses_fitted_model', Rp.front_end.ticc_labels, data, window_size=1,
+                              num_clusters=K, iteration_limit=lim, min_cluster_size=1, sparsity_weight=0.1,
+                              label_switching_cost=1.0)
+        if not ok:
+            return
+        c.notes.update({'kind': 'end_to_end', 'limit': lim})
+        fitted = [t for t in ml.trace if t[1] == 'optimise'][-1][3]
+        final = [t for t in ml.trace if t[1] == 'relabel'][-1][3]
+        labs = [int(x) for x in final.point_labels]
+        thr = core._const_real(2e-5)
+        cnt, ll = [], []
+        for k in range(K):
+            Th = fitted.clusters[k].train_inverse
+            S = fitted.clusters[k].empirical_covariance
+            cnt.append(z3.Sum([z3.If(z3.Or(R(Th[i, j]) > thr, R(Th[i, j]) < -thr), 1, 0)
+                               for i in range(n) for j in range(n)]))
+            tr = rsum([R(Th[i, j]) * R(S[j, i]) for i in range(n) for j in range(n)])
+            ll.append(core.log_term(R(stubs.det_exact(Th))) - tr)
+        pcnt = z3.Sum([cnt[k] for k in runs_of(labs)] + [z3.IntVal(0)])
+        want = z3.ToReal(pcnt) * core._const_real(math.log(P)) - 2 * rsum(ll)
+        c.prove('reported_bic_uses_fitted_model', R(res.bayesian_information_criterion) == want)
 
     def finite(self, c, n):
         Rp = self.R
